@@ -59,6 +59,17 @@ def source(case):
         return design.build_netlist(design.materialize((d[0], tuple(d[1]), d[2]))), "api:hier"
     if kind == "edif-text":
         return c05.parse_text(edif_writer.render(fdesigns.BASES[case[2]]())), "edif-reader:" + case[2]
+    if kind == "edif-text-ids":
+        # identifiers that are not derived from the names, the same one in every scope of its kind
+        ad = fdesigns.BASES[case[2]]()
+        for lib in ad["libs"]:
+            for d in lib["defs"]:
+                d["ports"] = d["ports"] + [dict(fdesigns.port("p(x)", 1, "in"), id="PX")]
+                if d.get("insts"):
+                    d["insts"] = d["insts"] + [{"name": "i(x)", "id": "IX", "ref": d["insts"][0]["ref"]}]
+                    d["nets"] = (d.get("nets") or []) + [{"name": "n(x)", "id": "NX", "bits": [[]]}]
+            lib["defs"] = lib["defs"] + [{"name": "cell(fast)", "id": "CELLX", "ports": [], "insts": [], "nets": []}]
+        return c05.parse_text(edif_writer.render(ad)), "edif-reader-own-identifiers:" + case[2]
     if kind == "verilog-text":
         return c06.parse_text(vw.render(c06.base_vad(), order=list(case[2]))), "verilog-reader:base"
     if kind == "eblif-text":
@@ -193,6 +204,8 @@ def cases(tier):
         srcs.append(("api-base", b))
         srcs.append(("api-base-rev", b))
         srcs.append(("edif-text", b))
+        if b in ("E4", "E9") or tier == "thorough":
+            srcs.append(("edif-text-ids", b))
     for desc in design.family_hier(tier, variants=("plain", "two-libraries")):
         if desc[0] in ("K8-bus",) or (desc[0] in ("K1-chain2", "K2-shared") and (tier == "thorough" or sum(desc[1]) % 5 == 0)):
             srcs.append(("api-hier", desc))
